@@ -911,3 +911,105 @@ pub fn small_trees(depth: usize, ls: &[Leaf], uns: &[Un]) -> Vec<Node> {
     }
     cur
 }
+
+/// C05 scale probe: the end-of-stream clauses for very wide frames (`[i32; N]`, N up to 65537):
+/// `n` complete frames plus `r` trailing samples through from_interleaved_samples_iter,
+/// until_exhausted, into_interleaved_samples (iterator and next_sample), take, add_amp of two
+/// wide sources of different length.
+pub fn wide_case<const N: usize>(n: usize, r: usize) -> Bad {
+    let name = format!("[i32;{N}] frames={n} trailing_samples={r}");
+    let frame_of = |f: usize| -> [i32; N] {
+        let mut a = [0i32; N];
+        for (c, s) in a.iter_mut().enumerate() {
+            *s = (f * N + c) as i32 + 1;
+        }
+        a
+    };
+    let frames: Vec<[i32; N]> = (0..n).map(frame_of).collect();
+    let total = n * N + r;
+    // (a) interleaved samples -> frames: exactly the complete frames, then exhausted, then equilibrium
+    {
+        let mut sig = signal::from_interleaved_samples_iter::<_, [i32; N]>((0..total).map(|k| k as i32 + 1));
+        for k in 0..n + 3 {
+            let e = sig.is_exhausted();
+            if e != (k >= n) {
+                return bad("wide.from_interleaved", format!("{name}: is_exhausted() = {e} after {k} calls, expected {}", k >= n));
+            }
+            let f = sig.next();
+            let exp = if k < n { frames[k] } else { <[i32; N]>::EQUILIBRIUM };
+            if f != exp {
+                let c = (0..N).find(|&c| f[c] != exp[c]).unwrap();
+                return bad("wide.from_interleaved", format!("{name}: frame {k} channel {c} = {}, expected {}", f[c], exp[c]));
+            }
+        }
+        let it = signal::from_interleaved_samples_iter::<_, [i32; N]>((0..total).map(|k| k as i32 + 1)).until_exhausted();
+        let cnt = it.take(n + 4).count();
+        if cnt != n {
+            return bad("wide.until_exhausted", format!("{name}: until_exhausted() over the interleaved source yielded {cnt} frames, expected {n}"));
+        }
+    }
+    // (b) frames -> interleaved samples: exactly n*N samples in channel order, then None for good
+    {
+        let mut il = signal::from_iter(frames.iter().cloned()).into_interleaved_samples();
+        for k in 0..n * N {
+            match il.next_sample() {
+                Some(s) if s == k as i32 + 1 => {}
+                other => return bad("wide.interleaved", format!("{name}: next_sample() #{k} = {other:?}, expected Some({})", k + 1)),
+            }
+        }
+        for j in 0..3 {
+            if let Some(s) = il.next_sample() {
+                return bad("wide.interleaved", format!("{name}: next_sample() returned Some({s}) on call {} after all {} samples, expected None", j + 1, n * N));
+            }
+        }
+        let mut it = signal::from_iter(frames.iter().cloned()).into_interleaved_samples().into_iter();
+        let mut cnt = 0usize;
+        while cnt < n * N + 4 {
+            match it.next() {
+                Some(s) => {
+                    if cnt >= n * N || s != cnt as i32 + 1 {
+                        return bad("wide.interleaved", format!("{name}: interleaved iterator item #{cnt} = {s}, expected {}", if cnt < n * N { format!("{}", cnt + 1) } else { "None".into() }));
+                    }
+                    cnt += 1;
+                }
+                None => break,
+            }
+        }
+        if cnt != n * N || it.next().is_some() {
+            return bad("wide.interleaved", format!("{name}: interleaved iterator yielded {cnt} samples, expected {}", n * N));
+        }
+    }
+    // (c) take(k) and a combining adaptor over wide frames
+    for k in 0..=n + 1 {
+        let got: Vec<[i32; N]> = signal::from_iter(frames.iter().cloned()).take(k).collect();
+        let ok = got.len() == k && (0..k).all(|j| got[j] == if j < n { frames[j] } else { <[i32; N]>::EQUILIBRIUM });
+        if !ok {
+            return bad("wide.take", format!("{name}: take({k}) yielded {} frames or wrong contents", got.len()));
+        }
+    }
+    {
+        let shorter = n.saturating_sub(1);
+        let a = signal::from_iter(frames.iter().cloned());
+        let b = signal::from_iter(frames.iter().take(shorter).cloned());
+        let got: Vec<[i32; N]> = a.add_amp(b).until_exhausted().take(n + 4).collect();
+        if got.len() != shorter || (0..shorter).any(|j| (0..N).any(|c| got[j][c] != frames[j][c].wrapping_mul(2))) {
+            return bad("wide.add_amp", format!("{name}: add_amp of sources of {n} and {shorter} frames yielded {} frames (expected {shorter}) or wrong sums", got.len()));
+        }
+    }
+    None
+}
+
+pub const WIDE_QUICK: [usize; 12] = [4, 16, 31, 32, 33, 64, 255, 256, 257, 300, 512, 1000];
+pub const WIDE_THOROUGH: [usize; 8] = [127, 128, 129, 1024, 4096, 65535, 65536, 65537];
+
+pub fn wide_dispatch(ch: usize, n: usize, r: usize) -> Bad {
+    macro_rules! d {
+        ($($N:literal)*) => {
+            match ch {
+                $($N => wide_case::<$N>(n, r),)*
+                _ => bad("wide", format!("unsupported channel count {ch}")),
+            }
+        };
+    }
+    d!(4 16 31 32 33 64 255 256 257 300 512 1000 127 128 129 1024 4096 65535 65536 65537)
+}
